@@ -15,6 +15,27 @@ def extract(path):
         except Exception:  # noqa
             continue
         progs.append(cand)
+    # any other string constant of the script that clingo parses as a program with at least one rule
+    try:
+        import ast as _pyast
+        from clingo.ast import ASTType, parse_string
+
+        for node in _pyast.walk(_pyast.parse(t)):
+            if isinstance(node, _pyast.Constant) and isinstance(node.value, str):
+                cand = node.value.strip()
+                if cand in progs or ":-" not in cand or len(cand) >= 1500 or not cand.endswith("."):
+                    continue
+                stms = []
+                try:
+                    parse_string(cand, stms.append, logger=lambda c, m_: None)
+                except Exception:  # noqa
+                    continue
+                if any(x.ast_type == ASTType.Rule and x.body for x in stms) and not all(
+                        x.ast_type == ASTType.Program or (x.ast_type == ASTType.Rule and not x.body) for x in stms):
+                    progs.append(cand)
+    except SyntaxError:
+        pass
+
     def preds(names):
         for nm in names:
             m = re.search(nm + r'\w*\s*(?::[^=]*)?=\s*(\[.*?\])\s*$', t, re.M | re.S)
